@@ -60,6 +60,14 @@ def main():
         nd[i + 1] = d
         meta[i + 1] = r
         jobs.append({'tid': i + 1, 'deck': d, 'opts': []})
+    # covariance: every third card (all in thorough) also under a general rigid motion (general-position code paths)
+    base = len(jobs)
+    for i, r in enumerate(recs):
+        if thorough or i % 3 == 0:
+            tid = base + i + 1
+            nd[tid] = nd[i + 1]
+            meta[tid] = dict(r, moved=True)
+            jobs.append({'tid': tid, 'deck': nd[i + 1], 'opts': [], 'phi': adeck.PHIS[i % len(adeck.PHIS)]})
     records = [x for x in conv.run_batch(deckrun.run_deck, jobs, chunksize=16)]
     core.lap('converter x%d' % len(jobs))
     good = []
@@ -91,7 +99,7 @@ def main():
             nparam = len(card['p'])
             sig = {'clause': kind, 'mnemonic': card['k'], 'nparam': nparam,
                    'errtype': err['type'] if err else None, 'where': err['where'] if err else None,
-                   'onesheet': meta[tid]['onesheet'],
+                   'onesheet': meta[tid]['onesheet'], 'moved': bool(meta[tid].get('moved')),
                    'sq_g_positive': bool(card['k'] == 'sq' and _sq_centre_value(card) > 0),
                    'first_point_on_axis': bool(card['k'] in 'xyz' and nparam == 4 and card['p'][1] == 0)}
             chk.violation(sig, {'text': rec['text'], 'card': card, 'error': err, 'deck': nd[tid],
